@@ -45,9 +45,9 @@ CHECKS.update({
  'C18': ('E6', 'exploration', 'exhaustive bounded enumeration of command sequences (prefix-shared tree over a 36-command alphabet) plus proptest sequences with invalid and mutated encodings, invariant oracle with sealed-segment history',
          'metadata.rs is included unmodified and driven in-process: every command sequence up to length 5 (quick) / 6 (thorough) over a 36-command alphabet, generated sequences of up to 400 commands with arbitrary names and counts, and raw / mutated byte strings; after every command the invariants of the property are checked and an Err must leave the state unchanged.',
          'Decoding uses the stand-in bincode codec (/verif/shims/bincode, wire format of bincode 1.3 defaults). Counts above 2^32 only arise through mutated encodings.', '§5 C18'),
- 'C20': ('E6', 'exploration', 'round-trip / differential property testing of the state machine snapshot (snapshot, restore into a fresh machine, compare, then apply a common generated suffix to both)',
-         'Clause (a) of the property: for generated s1 ++ s2 the machine restored from A\'s snapshot must equal A (canonicalised) and answer and evolve identically under s2; damaged snapshots must be rejected without effect or accepted.',
-         'Clause (b) (transfer through octopii\'s Raft state-machine adapter) needs the vendored openraft, whose dependencies are not available offline: not exercised, see DESIGN.md §5 C20 and §8.', '§5 C20'),
+ 'C20': ('E6', 'exploration', 'round-trip / differential property testing of snapshot transfer: (a) the state machine\'s own snapshot/restore and (b) build/install through octopii\'s Raft state-machine adapter, each followed by a common generated suffix on both replicas',
+         'Clause (a): for generated s1 ++ s2 the machine restored from A\'s snapshot must equal A (through the public getters and canonicalised) and answer and evolve identically under s2; damaged snapshots must be rejected without effect or accepted. Clause (b): the repository\'s MemStateMachine adapter (octopii/src/openraft/storage.rs, unmodified) with the real Metadata behind it applies generated logs (commands, blank and membership entries, 1-5 entries per apply call); the sender builds a snapshot and goes on; a fresh or lagging receiver installs it, catches up and both apply a common suffix; optionally a third node installs the receiver\'s current snapshot. Receiver metadata = sender metadata as of the build, applied_state = snapshot meta, equal answers and state after every later entry.',
+         'Clause (b) runs the adapter on a type-level stand-in for openraft (data carriers and trait declarations; openraft\'s own snapshot streaming and chunking are not executed). Decoding uses the stand-in bincode codec.', '§5 C20, II.9'),
  'C25': ('E6', 'exploration', 'exhaustive small-alphabet enumeration plus proptest pairs: round trip and injectivity of the storage key codec',
          'controller/types.rs included unmodified; all 3906 topics of length <= 5 over {t,s,_,1,0} x 6 segments (round trip, no shared key) and generated Unicode topics weighted towards the separator fragments with arbitrary u64 segments (round trip, pairwise distinct keys, boundary-shift near misses).',
          'None beyond proptest.', '§5 C25'),
@@ -123,7 +123,7 @@ m = {
  },
  'engines': [
    {'name': 'E1', 'path': 'harness/src/{absop,interp,model}.rs', 'serves_properties': ['C01','C02','C03','C06','C12','C14','C15','C16','C17'], 'kind_free_text': 'sequential model-based search: proptest-generated abstract histories, interpreted against a FIFO reference model, executed in child processes on the real engine'},
-   {'name': 'E8', 'path': 'oct/src/{main,drv}.rs, shims/{openraft,futures,tokio,bincode,octopii}', 'serves_properties': ['C21'], 'kind_free_text': 'octopii wal/mod.rs (with its private Walrus copy) and openraft/storage.rs included unmodified; child process per lifetime; model of the acknowledged log-store state'},
+   {'name': 'E8', 'path': 'oct/src/{main,drv,snap}.rs, shims/{openraft,futures,tokio,bincode,octopii}', 'serves_properties': ['C21','C20'], 'kind_free_text': 'octopii wal/mod.rs (with its private Walrus copy) and openraft/storage.rs included unmodified; child process per lifetime; model of the acknowledged log-store state'},
    {'name': 'E7', 'path': 'dist/src/{sim,simdrv}.rs, shims/{tokio,octopii,bincode}', 'serves_properties': ['C22','C23','C24'], 'kind_free_text': 'deterministic cluster simulation: distributed-walrus sources unmodified on a stand-in single-threaded tokio with virtual time and a linearisable stand-in for octopii; one child process per case'},
    {'name': 'E6', 'path': 'dist/src/meta.rs', 'serves_properties': ['C18','C20','C25'], 'kind_free_text': 'in-process checks of distributed-walrus metadata.rs and controller/types.rs (#[path]-included unmodified, compiled against stand-in crates under /verif/shims)'},
    {'name': 'E5', 'path': 'harness/src/props/damage.rs', 'serves_properties': ['C11'], 'kind_free_text': 'directory mutation engine: E1 workload -> clean exit -> generated damage -> fresh process reads everything'},
